@@ -5,7 +5,8 @@ import os, sys, json, copy, tempfile, shutil, subprocess, re, itertools
 import core, pyspec
 
 RUNNER = 'c03_runner.py'
-EXPECT_TOOLS = {'git': {'git': True, 'diff3': True}, 'diff3': {'git': False, 'diff3': True}, 'none': {'git': False, 'diff3': False}}
+EXPECT_TOOLS = {'git': {'git': True, 'diff3': True}, 'diff3': {'git': False, 'diff3': True}, 'diff': {'git': False, 'diff3': False}, 'none': {'git': False, 'diff3': False}}
+MODES = ('git', 'diff3', 'diff', 'none')   # 'diff': a machine with plain diff(1) only (no git, no diff3); 'none': not even that
 _MS = ['inline', 'use-base', 'use-local', 'use-remote']
 FALLBACK_CONFIGS = [[m, i, o, t, 'cli'] for m in _MS for i in [None] + _MS for o in [None] + _MS + ['remove', 'clear-all'] for t in [True, False]] \
     + [['mergetool', None, None, True, 'web']]
@@ -15,13 +16,17 @@ class Sandbox:
     """temp HOME / jupyter / git configuration and three PATH directories; removed by close()"""
     def __init__(self):
         self.dir = tempfile.mkdtemp(prefix='nbv_c03_')
-        for d in ('home', 'jc', 'jp', 'jd', 'xdg', 'p_git', 'p_diff3', 'p_none', 'tmp'):
+        for d in ('home', 'jc', 'jp', 'jd', 'xdg', 'p_git', 'p_diff3', 'p_diff', 'p_none', 'tmp'):
             os.makedirs(os.path.join(self.dir, d))
         self.real = {t: shutil.which(t) for t in ('git', 'diff3')}
         if self.real['git']: os.symlink(self.real['git'], os.path.join(self.dir, 'p_git', 'git'))
         if self.real['diff3']:
             os.symlink(self.real['diff3'], os.path.join(self.dir, 'p_git', 'diff3'))
             os.symlink(self.real['diff3'], os.path.join(self.dir, 'p_diff3', 'diff3'))
+        self.real['diff'] = shutil.which('diff')
+        if self.real['diff']:      # plain diff is on every machine that has git or diff3; and on some that have neither
+            for m in ('p_git', 'p_diff3', 'p_diff'):
+                os.symlink(self.real['diff'], os.path.join(self.dir, m, 'diff'))
 
     def env(self, mode='git'):
         d = self.dir
@@ -56,7 +61,7 @@ def all_configs(sb):
 
 def check_tools(sb):
     out = {}
-    for mode in ('git', 'diff3', 'none'):
+    for mode in MODES:
         r = run(sb, [{'op': 'tools'}], mode)[0]
         out[mode] = r.get('ok', r)
     return out
@@ -168,7 +173,7 @@ def has_text_conflict(t):
 def run_merge_tasks(sb, tasks, op='merge_all'):
     """tasks: [(triple, cfg list, mode)] -> results in order"""
     out = [None] * len(tasks)
-    for mode in ('git', 'diff3', 'none'):
+    for mode in MODES:
         idx = [i for i, t in enumerate(tasks) if t[2] == mode]
         if not idx: continue
         res = run(sb, [{'op': op, 'b': tasks[i][0]['b'], 'l': tasks[i][0]['l'], 'r': tasks[i][0]['r'], 'cfgs': tasks[i][1]} for i in idx], mode)
